@@ -48,6 +48,24 @@ if metas:
                 cb.append("%s missed" % p)
         out.append("| %s | %s | %s | %s | %s |" % (m["name"], ",".join(m.get("patch_files", [])), ",".join(m["properties"]), "; ".join(cb), m.get("note", "").replace("|", "/")))
     out.append("")
+bd = os.path.join(ROOT, "benign")
+bm = []
+if os.path.isdir(bd):
+    for n in sorted(os.listdir(bd)):
+        mp = os.path.join(bd, n, "meta.json")
+        if os.path.exists(mp):
+            bm.append(json.load(open(mp)))
+if bm:
+    out.append("**Benign (property-preserving) changes** (%d stored; the checks must stay green on every one).\n" % len(bm))
+    out.append("| benign change | files | checks run | result | note |")
+    out.append("|---|---|---|---|---|")
+    for m in bm:
+        res = []
+        for pid, r in (m.get("checks") or {}).items():
+            if isinstance(r, dict):
+                res.append("%s %s" % (pid, "/".join("%s exit %s (%ss)" % (t, v.get("exit"), v.get("seconds")) for t, v in r.items())))
+        out.append("| %s | %s | %s | %s | %s |" % (m["name"], ",".join(m.get("patch_files", [])), ",".join(m["properties"]), "; ".join(res), m.get("note", "").replace("|", "/")))
+    out.append("")
 p = os.path.join(ROOT, "DESIGN.md")
 s = open(p).read()
 s = re.sub(r"<!-- TABLES-BEGIN -->.*<!-- TABLES-END -->", "<!-- TABLES-BEGIN -->\n" + "\n".join(out) + "\n<!-- TABLES-END -->", s, flags=re.S)
